@@ -1,6 +1,7 @@
 (* C10 — GDB halts the program at a message iff it matches the breakpoint matcher. *)
 From WD Require Import Base Wire Protocol Conn Color LetterId Matcher MatcherParse Show Session.
 From WD Require Import ControllerProofs SessionProofs ConnMgrProofs GdbProofs.
+From WD Require Import StreamSpecA GdbRunsA HaltRuns.
 Open Scope Z_scope.
 
 (* the boolean returned to GDB by the closure breakpoint's stop(): true exactly when the message
@@ -53,3 +54,29 @@ Example C10_ex :
   resolves_to false (s2l "x") = None /\
   prompts_needed false [s2l "list"; s2l "zzz"; s2l "filter wl_surface"; s2l "w r"; s2l "quit"] = (4%nat, false).
 Proof. vm_compute. repeat split. Qed.
+
+(* ---- WHOLE RUNS (Proofs/HaltRuns.v): any start state, any gdb events (closures, destroys, commands) -------------
+   the k-th event, a closure: its output ends with the value handed to GDB, which is `halt` iff the message was
+   delivered on its connection, that connection passes the selection in force and the message matches the
+   breakpoint matcher in force (the state reached by the first k events); a `Stopped at` notice naming exactly
+   that message precedes it iff it halts; everything before is quiet.  A message whose resolution raises gets
+   no verdict at all (the exception escapes stop(): O6). *)
+Theorem C10_halt_event : forall P T evs k id th m,
+  nth_error evs k = Some (EGdbMsg id th m) ->
+  let Tk := fst (run P T (firstn k evs)) in
+  let kc := s_ctrl (t_sess Tk) in
+  exists o, nth_error (snd (run P T evs)) k = Some o /\
+    match gdb_arrival_top P Tk id th m with
+    | GDelivered ci cn d rm =>
+        let b := selected (k_current kc) ci && matches (k_stop kc) (VM (view_msg d cn rm)) in
+        exists pre, quiet pre = true /\
+          o = pre ++ (if b then [stop_notice (s_color (t_sess Tk)) d rm] else []) ++ [OStop b]
+    | GRaised e => exists pre, quiet pre = true /\ o = pre ++ [ORaise e]
+    end.
+Proof. exact halt_event. Qed.
+Print Assumptions C10_halt_event.
+
+(* all halt decisions of a run, in order *)
+Theorem C10_halt_stream : forall P evs T, halt_trace evs (snd (run P T evs)) = halt_expected P T evs.
+Proof. exact halt_stream. Qed.
+Print Assumptions C10_halt_stream.
